@@ -49,6 +49,7 @@ class Backend:
         self.state_page = cfg.get("state_page", 3)
         self.prune_children = cfg.get("prune_children", False)
         self.timer_lag = cfg.get("timer_lag", 0.0)
+        self.api_latency = cfg.get("api_latency", 0.0)
         self.arn = "arn:aws:lambda:us-east-1:123456789012:durable-execution:sim"
         self.now = cfg.get("t0", 1_800_000_000.0)
         self.ops: dict[str, dict] = {}
@@ -465,6 +466,7 @@ class FakeBoto:
         self.last_version = backend.version
         self.calls_after_failure = 0
         self.hooks = hooks
+        self.clock = None
 
     def _fault(self, idx):
         for f in self.plan.get("faults", ()):
@@ -483,7 +485,8 @@ class FakeBoto:
         self.n += 1
         b = self.b
         s = self.sched
-        rec.update({"inv": self.inv, "idx": idx, "kind": kind, "t_start": s.now if s else b.now})
+        rec.update({"inv": self.inv, "idx": idx, "kind": kind, "t_start": s.now if s else b.now,
+                    "live_tasks": sum(1 for t in s.tasks if t.state != "done") if s else 0})
         b.api.append(rec)
         if self.failed_at is not None:
             self.calls_after_failure += 1
@@ -493,6 +496,9 @@ class FakeBoto:
             b.fire_due(s.now)
         if self.hooks and self.hooks.get("before_api"):
             self.hooks["before_api"](self, rec)
+        if s is not None and b.api_latency:
+            s.sleep(b.api_latency)  # the call is in flight: other tasks run meanwhile
+            b.fire_due(s.now)
         if self._crash(idx, "api_before"):
             rec["crashed"] = "before"
             s.crash()
@@ -500,6 +506,7 @@ class FakeBoto:
         if f and f.get("when", "before") == "before":
             self.failed_at = idx if self.failed_at is None else self.failed_at
             rec["fault"] = f
+            rec["fail_clk"] = self.clock() if self.clock else 0
             code, msg, status, _ = FAULT_CLASSES[f["class"]]
             raise ServiceFault(code, msg, status)
         out = fn()
@@ -515,6 +522,7 @@ class FakeBoto:
         if f:
             self.failed_at = idx if self.failed_at is None else self.failed_at
             rec["fault"] = f
+            rec["fail_clk"] = self.clock() if self.clock else 0
             code, msg, status, _ = FAULT_CLASSES[f["class"]]
             raise ServiceFault(code, msg, status)
         if s is not None:
